@@ -93,8 +93,13 @@ def readBand (b : Nat) (last : Option Str) : Prog (List IndexEntry × Option Str
     logError e
     pure ([], last)
   | .ok () =>
-    let hunks ← iterAvailableHunks b
-    readHunks b hunks last last
+    -- `try_iter_available_hunks`: an index that cannot be listed is reported and the band
+    -- is treated like one that cannot be opened (before the repair this was a panic)
+    match ← (hunksAvailable b).attempt with
+    | .error e =>
+      logError e
+      pure ([], last)
+    | .ok hunks => readHunks b hunks last last
 
 /-- `State::AfterBand(b)` for `b = n` where only bands below `n` remain to be tried:
 walk down to the previous existing band, read it, go on unless it is closed. -/
